@@ -1,5 +1,5 @@
 /-
-C14 — Equality on generated and wire values is a sound equivalence (proof, partial).
+C14 — Equality on generated and wire values is a sound equivalence.
 
 Property theorems only. Model: M-Schema `equalsG` (generated Equals / EqualsPtr and the per-container
 helpers, incl. the one-directional membership loops) and `wireEq` (wire.ValuesAreEqual).
@@ -9,10 +9,15 @@ Proved: Equals is reflexive, symmetric and transitive on decoded values, for eve
 (hence order-insensitive for sets and maps — any permutation of a decoded value's set elements / map
 entries is Equals to it — and order-sensitive for lists by `list_order_sensitive`); total (never
 "panics": the model is a total function, nil receivers/arguments included).
-Not proved (harness oracles on the implementation instead): x.Equals(y) ⇔ ValuesAreEqual(x.ToWire(), y.ToWire())
-⇔ independent structural comparison.
+Proved as well: x.Equals(y) holds exactly when wire.ValuesAreEqual(x.ToWire(), y.ToWire()) holds, for every
+schema with pairwise different field ids, every type and every two decoded values (`equals_iff_wire_equal`;
+induction over types, with the pigeonhole lemma for the one-directional loops on both sides, "last entry
+wins" of the hashable-key map loop, and the field-map comparison of structs).
+Not proved (harness oracle on the implementation instead): agreement with an INDEPENDENT structural
+comparison of the two logical values (that comparison lives in the Go harness).
 -/
 import ThriftVerif.Schema.EqualsProofs
+import ThriftVerif.Schema.EqWireProofs
 
 namespace ThriftVerif.Properties.C14
 open ThriftVerif.Wire ThriftVerif.Schema
@@ -57,6 +62,33 @@ theorem list_order_sensitive :
     equalsG {} 5 (.set .i32) (.set true [.i32 1, .i32 2]) (.set true [.i32 2, .i32 1]) = true ∧
     equalsG {} 5 (.map (.list .i8) .bool) (.map false [(.list [.i8 1], .bool true), (.list [], .bool false)])
       (.map false [(.list [], .bool false), (.list [.i8 1], .bool true)]) = true := by
+  decide
+
+/-- `x.Equals(y)` holds exactly when the wire forms of x and y are equal under wire-value
+equality (`wire.ValuesAreEqual`) — for every schema whose structs have pairwise different field
+identifiers, every type, and every two values in decoded form. -/
+theorem equals_iff_wire_equal (env : Env) (hids : WFIds env) (fuel : Nat) (t : Ty) (x y : GVal) (wx wy : WValue)
+    (hx : decodedV env fuel t x = true) (hy : decodedV env fuel t y = true)
+    (hwx : toWire env fuel t x = .ok wx) (hwy : toWire env fuel t y = .ok wy) :
+    equalsG env fuel t x y = true ↔ wireEq fuel wx wy = true := by
+  rw [equals_eq_wireEq env hids fuel t x y wx wy hx hy hwx hwy]
+
+/-- Non-vacuity of `equals_iff_wire_equal`: two decoded structs with an optional field unset on one
+side, a slice-backed set in different orders and a map — both sides of the equivalence computed. -/
+example :
+    let env : Env := { structs := [⟨"S", .struct,
+      [⟨1, "A", "a", true, false, false, none, .i32⟩,
+       ⟨2, "B", "b", false, false, false, none, .sset .string⟩,
+       ⟨3, "C", "c", false, false, false, none, .map .i8 .bool⟩]⟩] }
+    let x := GVal.struct [.i32 5, .set false [.str [65], .str [66]], .map true [(.i8 1, .bool true), (.i8 2, .bool false)]]
+    let y := GVal.struct [.i32 5, .set false [.str [66], .str [65]], .map true [(.i8 2, .bool false), (.i8 1, .bool true)]]
+    let z := GVal.struct [.i32 5, .set false [.str [66], .str [65]], .nil]
+    decodedV env 5 (.struct "S") x = true ∧ decodedV env 5 (.struct "S") y = true ∧
+    decodedV env 5 (.struct "S") z = true ∧
+    equalsG env 5 (.struct "S") x y = true ∧ equalsG env 5 (.struct "S") x z = false ∧
+    (match toWire env 5 (.struct "S") x, toWire env 5 (.struct "S") y, toWire env 5 (.struct "S") z with
+     | .ok wx, .ok wy, .ok wz => wireEq 5 wx wy && !wireEq 5 wx wz
+     | _, _, _ => false) = true := by
   decide
 
 /-- nil receivers and arguments are handled (struct pointers). -/
